@@ -758,3 +758,62 @@ def family_nullary(tier, start=0):
             P.rules.append(Rule([Atom(p, [X, Z])], [Atom(p, [X, Y]), Atom("e", [Y, Z]), Neg(Atom(f, [])) if neg else Atom(f, [])], None))
         add(b5, "lower-stratum-proposition" + ("-negated" if neg else ""))
     return _finish(cases)
+
+
+# ------------------------------------------------------------------ chains of unary strata with several negations
+
+def family_negchain(tier, start=0, n=6):
+    """n unary IDB relations R1..Rn, one stratum each unless joined positively: R1 = nodes reachable from a/1 through e/2; Ri (i >= 2)
+    reads R(i-1) positively or negated (every sign vector) and optionally one earlier relation Rj, j < i-1 (quick: positively,
+    thorough: either sign); guard a(x) for R2, nd(x) (all nodes) otherwise.  Only Rn is an output.  These are the shapes in which
+    one relation is needed, with a bound argument, under several differently negated contexts (magic sets: labelling of copies)."""
+    cases = []
+    cid = start
+    extras_signs = (True,) if tier == "quick" else (True, False)
+
+    def options(i):
+        out = []
+        for bsign in (True, False):
+            out.append([(i - 1, bsign)])
+            for j in range(1, i - 1):
+                for es in extras_signs:
+                    out.append([(i - 1, bsign), (j, es)])
+        return out
+
+    def rec(i, chosen):
+        nonlocal cid
+        if i > n:
+            P = Program()
+            _edb_ae(P)
+            names = [None] + ["r%d_%d" % (k, cid) for k in range(1, n + 1)]
+            nd = "nd_%d" % cid
+            P.rel(nd, [("x", "number")])
+            P.rules.append(Rule([Atom(nd, [X])], [Atom("e", [X, Anon()])], None))
+            P.rules.append(Rule([Atom(nd, [X])], [Atom("e", [Anon(), X])], None))
+            P.rules.append(Rule([Atom(nd, [X])], [Atom("a", [X])], None))
+            for k in range(1, n + 1):
+                P.rel(names[k], [("x", "number")], is_output=(k == n))
+            P.rules.append(Rule([Atom(names[1], [X])], [Atom("a", [X])], None))
+            P.rules.append(Rule([Atom(names[1], [Y])], [Atom(names[1], [X]), Atom("e", [X, Y])], None))
+            desc = []
+            for k in range(2, n + 1):
+                body = [Atom("a", [X]) if k == 2 else Atom(nd, [X])]
+                for j, sign in chosen[k - 2]:
+                    body.append(Atom(names[j], [X]) if sign else Neg(Atom(names[j], [X])))
+                P.rules.append(Rule([Atom(names[k], [X])], body, None))
+                desc.append("R%d:%s" % (k, ",".join(("+" if sg else "!") + "R%d" % j for j, sg in chosen[k - 2])))
+            cases.append(Case(cid, "negchain", P, "negchain " + " ".join(desc)))
+            cid += 1
+            return
+        for o in options(i):
+            rec(i + 1, chosen + [o])
+
+    rec(2, [])
+    return cases
+
+
+def dbs_negchain():
+    return [{"a": ((0,),), "e": ((0, 1), (1, 2))},
+            {"a": ((1,),), "e": ((0, 1), (1, 2), (2, 0))},
+            {"a": ((0,), (2,)), "e": ((0, 1),)},
+            {"a": ((0,),), "e": ((0, 1), (1, 2), (3, 2))}]
